@@ -17,8 +17,10 @@ import (
 
 func init() {
 	register(&Property{
-		ID:  "C15",
-		Gen: genC15,
+		ID:    "C15",
+		Files: []string{"handler.go", "actor.go", "queue.go", "cor.go", "worker/pool.go"},
+		Funcs: []string{"HandlerDef", "ActorDef", "BufferedChannelQueue", "CorDef", "DefaultWorkerPool"},
+		Gen:   genC15,
 		Rule: "one object kind per run (queue/handler/actor/pool/cor) drawn from the scenario tape with 1..N user threads and one closer; " +
 			"a run is non-trivial when the close was invoked while at least one user call was in flight or still to come and >=1 context switch happened inside the object's code; " +
 			"distinct = distinct (kind, context-switch signature)",
